@@ -217,6 +217,14 @@ impl Ldap {
         } else {
             rx.await
         }?;
+        if let Tag::StructureTag(ref t) = response.0 {
+            if !crate::result::well_formed_result(t) {
+                return Err(LdapError::from(std::io::Error::new(
+                    std::io::ErrorKind::Other,
+                    "decoding error",
+                )));
+            }
+        }
         let (ldap_ext, controls) = (LdapResultExt::from(response.0), response.1);
         let (mut result, exop, sasl_creds) = (ldap_ext.0, ldap_ext.1, ldap_ext.2);
         result.ctrls = controls;
